@@ -308,23 +308,57 @@ func c06Sponge(c *Ctx) {
 		if name == "Absorb" {
 			// the per-block work (reset, lanes, transform) sits in Absorb's block loop or in a helper the loop calls
 			// with the batch and the block offset; the helper is analysed with its parameters bound to those arguments
-			blockBody := func(fn *ssa.Function, b *ana.Builder) (nReset int, stL, stH, okOrder bool) {
+			// resetIn: the reset loop of fn — its continue edges, its exit edges, and whether l[j] / h[j] are set to all-ones
+			resetIn := func(fn *ssa.Function, b *ana.Builder) (loop []ana.CondEdge, exit []ana.Edge, stL, stH bool) {
 				// j = 0..242 as a counted loop or as a range over l[:243] / h[:243]
-				resetLoop := edgesMatching(b, "bin<<>(ind<+1>(0), alt(243, len(slice(_, 0, 243))))")
-				resetExit := plainEdges(edgesMatching(b, "bin<>=>(ind<+1>(0), alt(243, len(slice(_, 0, 243))))"))
+				loop = edgesMatching(b, "bin<<>(ind<+1>(0), alt(243, len(slice(_, 0, 243))))")
+				exit = plainEdges(edgesMatching(b, "bin<>=>(ind<+1>(0), alt(243, len(slice(_, 0, 243))))"))
 				for _, blk := range fn.Blocks {
 					for _, ins := range blk.Instrs {
 						if st, ok := ins.(*ssa.Store); ok {
 							at := b.Of(st.Addr, st)
 							vt := b.Of(st.Val, st)
 							allOnes := vt.String() == "18446744073709551615" || vt.String() == "4294967295"
-							if bd, m := ana.Match("iaddr(faddr<#0>(_), ind<+1>(0))", at); m && allOnes {
-								_ = bd
+							if _, m := ana.Match("iaddr(faddr<#0>(_), ind<+1>(0))", at); m && allOnes {
 								stL = true
 							}
 							if _, m := ana.Match("iaddr(faddr<#1>(_), ind<+1>(0))", at); m && allOnes {
 								stH = true
 							}
+						}
+					}
+				}
+				return
+			}
+			blockBody := func(fn *ssa.Function, b *ana.Builder) (nReset int, stL, stH, okOrder bool) {
+				resetLoop, resetExit, stL, stH := resetIn(fn, b)
+				var resetCall ssa.CallInstruction
+				if len(resetLoop) == 0 {
+					// the reset alone in a method of the same receiver that does nothing else: one loop, one exit, no calls
+					for _, ci := range ana.Calls(fn) {
+						h := ana.StaticRepoCallee(ci.Common())
+						if h == nil || h == fn || h == curlMethod || h.Blocks == nil || len(ana.Calls(h)) != 0 || len(ana.BackEdges(h)) != 1 {
+							continue
+						}
+						call := stripObj(b.CallTermAt(ci))
+						if call.Op != "call" || len(call.Args) != len(h.Params) || len(call.Args) == 0 || call.Args[0].String() != "p0" {
+							continue
+						}
+						hb := boundBuilderP(c.P, call)
+						l2, x2, sl, sh := resetIn(h, hb)
+						rets := 0
+						okRet := true
+						for _, e := range ana.Exits(h) {
+							if e.Panic {
+								okRet = false
+								continue
+							}
+							rets++
+							okRet = okRet && mustPass(h, e.Instr.Block(), x2)
+						}
+						if len(l2) == 1 && len(x2) == 1 && sl && sh && rets == 1 && okRet {
+							r.Fn(ana.ShortFunc(h))
+							resetLoop, stL, stH, resetCall = l2, sl, sh, ci
 						}
 					}
 				}
@@ -339,7 +373,7 @@ func c06Sponge(c *Ctx) {
 					}
 				}
 				okOrder = false
-				if inCall != nil && trCall != nil && len(resetExit) == 1 {
+				if inCall != nil && trCall != nil && (len(resetExit) == 1 || resetCall != nil) {
 					lanes := false
 					var laneExit []ana.Edge
 					for _, l := range rangeLoops(b) {
@@ -348,7 +382,9 @@ func c06Sponge(c *Ctx) {
 							laneExit = []ana.Edge{{From: l.Header, To: l.Exit}}
 						}
 					}
-					okOrder = lanes && mustPass(fn, inCall.Block(), resetExit) && mustPass(fn, trCall.Block(), laneExit) && !mustPass(fn, trCall.Block(), plainEdges(edgesMatching(b, "bin<>=>(ind<+243>(0), p2)")))
+					resetDone := resetCall == nil && mustPass(fn, inCall.Block(), resetExit) ||
+						resetCall != nil && ana.InstrDominates(resetCall, inCall) && !laneLoopHas(rangeLoops(b), resetCall.Block())
+					okOrder = lanes && resetDone && mustPass(fn, trCall.Block(), laneExit) && !mustPass(fn, trCall.Block(), plainEdges(edgesMatching(b, "bin<>=>(ind<+243>(0), p2)")))
 				}
 				return len(resetLoop), stL, stH, okOrder
 			}
@@ -583,4 +619,13 @@ func parallelLanes(w int, f func(idx int)) {
 	if failure != nil {
 		panic(failure)
 	}
+}
+
+func laneLoopHas(loops []rangeLoop, blk *ssa.BasicBlock) bool {
+	for _, l := range loops {
+		if l.Coll.IsParam(1) && l.Blocks[blk] {
+			return true
+		}
+	}
+	return false
 }
